@@ -658,10 +658,25 @@ func cmdReplay(args []string) int {
 	if os.Getenv("VERIF_TIER") == "thorough" && spec.Thorough.Params != nil {
 		params = spec.Thorough.Params
 	}
-	outs, err := runNativeCases(lr, spec.Pkg, []nativeCase{{ID: "r", Harness: v.Harness, Inputs: v.Model, Params: params}}, false)
-	if err != nil {
-		fmt.Println("replay failed to run:", err)
-		return 2
+	// a counterexample that needed the padded variant (sort contract) or the race detector is
+	// replayed the same way
+	pp := map[string]int{}
+	for k, x := range params {
+		pp[k] = x
+	}
+	how := v.Extra["reproduced_with"]
+	if i := strings.Index(how, "+pad"); i >= 0 && spec.ReplayPad != nil {
+		if n, err := strconv.Atoi(how[i+4:]); err == nil {
+			pp[spec.ReplayPad.Param] = n
+		}
+	}
+	cases := []nativeCase{{ID: "r", Harness: v.Harness, Inputs: v.Model, Params: pp}}
+	var outs map[string]*nativeOutcome
+	raced := map[string]bool{}
+	if spec.RaceReplay {
+		outs, raced, err = runNativeRace(lr, spec.Pkg, cases, 20)
+	} else {
+		outs, err = runNativeCases(lr, spec.Pkg, cases, false)
 	}
 	o := outs["r"]
 	if o == nil {
@@ -669,7 +684,7 @@ func cmdReplay(args []string) int {
 		return 2
 	}
 	fmt.Printf("native outcome=%s failed=%v reached=%d observes=%v panic=%s\n", o.Outcome, o.Failed, len(o.Reached), o.Observes, o.Panic)
-	if contains(o.Failed, v.Clause) {
+	if contains(o.Failed, v.Clause) || (raced["r"] && strings.Contains(v.Clause, "data-race")) {
 		fmt.Printf("REPRODUCED property=%s clause=%s\n", v.Property, v.Clause)
 		return 1
 	}
